@@ -621,7 +621,7 @@ fn check_positive(src: &Sources, exp: &Value, max_implicit: usize, family: &str,
     }
 }
 
-fn case(seed: u64, idx: u64, st: &mut Stats) -> Option<(Sources, Value, usize, &'static str)> {
+pub fn case(seed: u64, idx: u64, st: &mut Stats) -> Option<(Sources, Value, usize, &'static str)> {
     if idx % 4 == 1 {
         let mut rng = Rng::for_case(seed, "c09graph", idx);
         // accepted graphs only here; rejected ones are produced by the negative family
